@@ -50,7 +50,6 @@ EXCLUDE = {
     "now": "clock", "time": "clock", "sleep": "sleep",
     "input": "stdin", "read": "stdin", "read_bytes": "stdin", "read_compressed": "stdin",
     "interact": "stdin", "interact_lines": "stdin",
-    "random": "random", "random_bytes": "random", "random_range": "random", "shuffle": "random", "choose": "random",
     "eval": "eval",
 }
 # names containing these fragments are excluded even if they appear later (a new I/O builtin must not be run blindly)
@@ -119,7 +118,14 @@ FUEL = 20_000
 LIMIT_MS = 3000
 
 
+# the random builtins are swept for their outcome class only (value / raised / crash), every call repeated
+RANDOM_FNS = ["choose", "shuffle", "random", "random_bytes", "random_range"]
+RANDOM_REPEAT = 20
+
+
 def excluded(name):
+    if name in RANDOM_FNS:
+        return None
     if name in EXCLUDE:
         return EXCLUDE[name]
     for f in EXCLUDE_FRAGMENTS:
@@ -365,6 +371,13 @@ def build_cases(ctx, sw, fns):
             huge = [[i] for i in IDX_H] + huge_tuples(2) + huge_tuples(3, ctx.rng, 3000)
             for ch in chunks(huge, 400):
                 cases.append(sw.case(fn, tuples=ch, limit_ms=hlimit))
+    # random builtins: the same calls again and again (the outcome may depend on the draw)
+    ints = [i for i in IDX_BI + IDX_H if TAG[i] in ("int", "huge")]
+    for fn in fns:
+        if fn in RANDOM_FNS:
+            cases.append(sw.case(fn, tuples=([[]] + [[i] for i in IDX_BI]) * RANDOM_REPEAT))
+            cases.append(sw.case(fn, tuples=[[i] for i in IDX_H] * RANDOM_REPEAT, limit_ms=hlimit, budget=10))
+            cases.append(sw.case(fn, tuples=[[a, b] for a in ints for b in ints] * (RANDOM_REPEAT if fn == "random_range" else 2), limit_ms=hlimit, budget=10))
     ctx.rng.shuffle(cases)
     return cases
 
@@ -403,7 +416,7 @@ def native_inf_cases(ctx, sw, notconsumed):
 # (members of the known finding; a failure of any OTHER builtin on a huge argument is a violation):
 #   .* *.  list replication          $* *$  string replication        ^^  cartesian power (index vector of that length)
 #   ** x   `seq ** n` concatenates n copies      ^  bigint / rational power       <<  bigint shift
-HUGE_COUNT_FNS = {".*", "*.", "$*", "*$", "^^", "**", "\u00d7", "^", "<<"}
+HUGE_COUNT_FNS = {".*", "*.", "$*", "*$", "^^", "**", "\u00d7", "^", "<<", "random_bytes"}
 
 
 def classify(f):
@@ -895,6 +908,9 @@ RAW_FAULTS = [
     ("x0 = switch ({1: (\\x -> x)}) case {1: 2} -> 1 case _ -> 2", {0}),
     ("x0 = [{1: (\\x -> x)}] locate {1: (\\x -> x)}", {0}),
     ("x0 = [{1: (\\x -> x)}] count {1: (\\x -> x)}", {0}),
+    ("x0 = choose(\"\u00e9\u00e9\u00e9\u00e9\u00e9\")", {0}), ("x0 = choose(\"\U0001d11e\u4e2d\")", {0}), ("x0 = choose(\"\")", {0}), ("x0 = choose([])", {0}), ("x0 = choose({})", {0}),
+    ("x0 = shuffle(\"\u00e9\u4e2dx\")", {0}), ("x0 = shuffle(5)", {0}), ("x0 = random_range(5, 5)", {0}), ("x0 = random_range(0-9223372036854775807-1, 9223372036854775807)", {0}),
+    ("x0 = random_bytes(0-1)", {0}), ("x0 = random_bytes(0)", {0}), ("x0 = random(1)", {0}),
     ("x0 %= 0", {0}), ("x0 %%= 0", {0}), ("x0 /= 0", {0}), ("x0 gcd= null", {0}), ("x0 til= null", {0}), ("x0 by= 0", {0}), ("x0 = 1 to null", {0}),
 ]
 
